@@ -5,6 +5,7 @@ import (
 	"go/ast"
 	"go/token"
 	"go/types"
+	"golang.org/x/tools/go/cfg"
 	"strings"
 )
 
@@ -82,16 +83,175 @@ func runC19(c *Ctx) {
 		fkey := funcKey(pkg, fd)
 		f := newFuncCFG(p, info, fd.Body, fkey)
 		// minus-one expressions: literal -1, or a local defined as ^T(0) / -1
-		isMinusOne := func(e ast.Expr) bool {
+		isMinusOneIn := func(body *ast.BlockStmt, e ast.Expr) bool {
 			e = ast.Unparen(e)
 			if tv, ok := info.Types[e]; ok && tv.Value != nil && tv.Value.String() == "-1" {
 				return true
 			}
-			if def := definingExpr(info, fd.Body, e); def != nil {
-				k := exprKey(def)
-				return strings.HasPrefix(k, "^") && strings.HasSuffix(k, "(0)") || k == "-1"
+			k := exprKey(e)
+			if def := definingExpr(info, body, e); def != nil {
+				k = exprKey(def)
 			}
-			return false
+			return strings.HasPrefix(k, "^") && strings.HasSuffix(k, "(0)") || k == "-1"
+		}
+		// singlesOut: the condition compares v with minus one - directly, or inside an unexported
+		// predicate helper of the package that is handed v (its parameter takes v's place)
+		var singlesOut func(cnd ast.Node, body *ast.BlockStmt, v types.Object, depth int) bool
+		singlesOut = func(cnd ast.Node, body *ast.BlockStmt, v types.Object, depth int) bool {
+			found := false
+			ast.Inspect(cnd, func(n ast.Node) bool {
+				if found {
+					return false
+				}
+				switch x := n.(type) {
+				case *ast.BinaryExpr:
+					if x.Op == token.EQL {
+						if (objOfIdent(info, x.X) == v && isMinusOneIn(body, x.Y)) || (objOfIdent(info, x.Y) == v && isMinusOneIn(body, x.X)) {
+							found = true
+						}
+					}
+				case *ast.CallExpr:
+					if depth <= 0 {
+						return true
+					}
+					fn := staticCallee(info, x)
+					if fn == nil {
+						return true
+					}
+					hd := p.decls().byFunc[fn.Origin()]
+					if hd == nil || hd.Body == nil || hd.Name.IsExported() || p.decls().infoOf[hd] != info {
+						return true
+					}
+					var params []types.Object
+					for _, fl := range hd.Type.Params.List {
+						for _, nm := range fl.Names {
+							params = append(params, info.Defs[nm])
+						}
+					}
+					for i, a := range x.Args {
+						if i < len(params) && objOfIdent(info, a) == v && params[i] != nil {
+							for _, st := range hd.Body.List {
+								if rs, ok := st.(*ast.ReturnStmt); ok && singlesOut(rs, hd.Body, params[i], depth-1) {
+									found = true
+								}
+							}
+						}
+					}
+				}
+				return !found
+			})
+			return found
+		}
+		// atCritical evaluates a guard condition at the one operand pair that wraps - the divisor is
+		// -1 and every other integer operand is the smallest value of a signed type - over a closed
+		// table of atom forms (three-valued; anything else is unknown). Constant folding at a single
+		// point, not an execution: the forms are d == -1, ^T(0) < 0, n != 0, n == -n, n < 0 and their
+		// negations, combined with ! && || and through unexported predicate helpers.
+		var atCritical func(e ast.Expr, body *ast.BlockStmt, d types.Object, depth int) (val, known bool)
+		atCritical = func(e ast.Expr, body *ast.BlockStmt, d types.Object, depth int) (bool, bool) {
+			e = ast.Unparen(e)
+			isOther := func(x ast.Expr) bool {
+				o := objOfIdent(info, x)
+				if o == nil || o == d || isMinusOneIn(body, x) {
+					return false
+				}
+				_, isVar := o.(*types.Var)
+				return isVar
+			}
+			isZero := func(x ast.Expr) bool { return isConstZero(info, ast.Unparen(x)) }
+			isNegOf := func(x, y ast.Expr) bool { // x is -y
+				u, ok := ast.Unparen(x).(*ast.UnaryExpr)
+				return ok && u.Op == token.SUB && objOfIdent(info, u.X) != nil && objOfIdent(info, u.X) == objOfIdent(info, y)
+			}
+			switch x := e.(type) {
+			case *ast.UnaryExpr:
+				if x.Op == token.NOT {
+					v, k := atCritical(x.X, body, d, depth)
+					return !v, k
+				}
+			case *ast.Ident:
+				if def := definingExpr(info, body, x); def != nil && depth > 0 {
+					return atCritical(def, body, d, depth-1)
+				}
+			case *ast.BinaryExpr:
+				switch x.Op {
+				case token.LAND, token.LOR:
+					lv, lk := atCritical(x.X, body, d, depth)
+					rv, rk := atCritical(x.Y, body, d, depth)
+					if x.Op == token.LAND {
+						if (lk && !lv) || (rk && !rv) {
+							return false, true
+						}
+						return lv && rv, lk && rk
+					}
+					if (lk && lv) || (rk && rv) {
+						return true, true
+					}
+					return false, lk && rk
+				case token.EQL, token.NEQ:
+					eq := x.Op == token.EQL
+					switch {
+					case (objOfIdent(info, x.X) == d && isMinusOneIn(body, x.Y)) || (objOfIdent(info, x.Y) == d && isMinusOneIn(body, x.X)):
+						return eq, true // d == -1
+					case (isOther(x.X) && isZero(x.Y)) || (isOther(x.Y) && isZero(x.X)):
+						return !eq, true // min != 0
+					case (isOther(x.X) && isNegOf(x.Y, x.X)) || (isOther(x.Y) && isNegOf(x.X, x.Y)):
+						return eq, true // min == -min
+					}
+				case token.LSS, token.GEQ:
+					lt := x.Op == token.LSS
+					switch {
+					case isMinusOneIn(body, x.X) && isZero(x.Y):
+						return lt, true // -1 < 0: the type is signed
+					case isOther(x.X) && isZero(x.Y):
+						return lt, true // min < 0
+					}
+				case token.GTR, token.LEQ:
+					gt := x.Op == token.GTR
+					switch {
+					case isZero(x.X) && isMinusOneIn(body, x.Y):
+						return gt, true
+					case isZero(x.X) && isOther(x.Y):
+						return gt, true
+					}
+				}
+			case *ast.CallExpr:
+				if depth <= 0 {
+					break
+				}
+				fn := staticCallee(info, x)
+				if fn == nil {
+					break
+				}
+				hd := p.decls().byFunc[fn.Origin()]
+				if hd == nil || hd.Body == nil || hd.Name.IsExported() || p.decls().infoOf[hd] != info || len(x.Args) != 1 {
+					break
+				}
+				// a one-argument predicate: its parameter plays the argument's role
+				var param types.Object
+				if len(hd.Type.Params.List) == 1 && len(hd.Type.Params.List[0].Names) == 1 {
+					param = info.Defs[hd.Type.Params.List[0].Names[0]]
+				}
+				var ret *ast.ReturnStmt
+				nRet := 0
+				ast.Inspect(hd.Body, func(n ast.Node) bool {
+					if rs, ok := n.(*ast.ReturnStmt); ok {
+						ret, nRet = rs, nRet+1
+					}
+					return true
+				})
+				if param == nil || nRet != 1 || len(ret.Results) != 1 {
+					break
+				}
+				role := types.Object(nil) // the helper's parameter is "other" unless the argument is the divisor
+				if objOfIdent(info, x.Args[0]) == d {
+					role = param
+				} else if !isOther(x.Args[0]) {
+					break
+				}
+				return atCritical(ret.Results[0], hd.Body, role, depth-1)
+			}
+			return false, false
 		}
 		for _, pt := range f.Find(func(n ast.Node) bool {
 			b, ok := n.(*ast.BinaryExpr)
@@ -124,34 +284,32 @@ func runC19(c *Ctx) {
 					continue
 				}
 				var guards []Edge
+				var undecided []string
 				for _, b := range f.G.Blocks {
 					cnd := condOf(b)
 					if cnd == nil || !b.Live {
 						continue
 					}
-					mentions := false
-					ast.Inspect(cnd, func(n ast.Node) bool {
-						if be, ok := n.(*ast.BinaryExpr); ok && be.Op == token.EQL {
-							if (objOfIdent(info, be.X) == divisor && isMinusOne(be.Y)) || (objOfIdent(info, be.Y) == divisor && isMinusOne(be.X)) {
-								mentions = true
-							}
-						}
-						return !mentions
-					})
-					if !mentions {
+					if !singlesOut(cnd, fd.Body, divisor, 2) {
 						continue
 					}
 					for si := range b.Succs {
 						other := b.Succs[1-si]
 						if !pathExists(f, Point{other, 0}, pt) {
-							guards = append(guards, Edge{b, si})
+							// the edge that leaves (1-si) must be the one taken at (min, -1)
+							val, known := atCritical(cnd, fd.Body, divisor, 3)
+							if known && val == (1-si == 0) {
+								guards = append(guards, Edge{b, si})
+							} else {
+								undecided = append(undecided, fmt.Sprintf("%s: the branch on %s is not known to leave for (min, -1) (known=%v value=%v)", p.posStr(cnd.Pos()), types.ExprString(cnd), known, val))
+							}
 						}
 					}
 				}
 				if w, only := f.OnlyThroughEdges(pt, guards); only {
 					r.Pass("signed-div/guarded", key, p.posStr(d.Pos()), "dominated by a branch that singles out divisor == -1 and leaves through its other edge")
 				} else {
-					r.Fail("signed-div/guarded", key, p.posStr(d.Pos()), "the operand type set contains signed integers and no branch excludes the pair (min, -1) before this division: the quotient wraps to min and is returned as a valid result", w...)
+					r.Fail("signed-div/guarded", key, p.posStr(d.Pos()), "the operand type set contains signed integers and no branch excludes the pair (min, -1) before this division: the quotient wraps to min and is returned as a valid result", append(undecided, w...)...)
 				}
 			}
 		}
@@ -163,9 +321,51 @@ func runC19(c *Ctx) {
 	}
 }
 
-// roundTripExempt: raw products that are validated by other means, one named symbol each.
-var roundTripExempt = map[string]string{
-	"int64(lo)*resultSign in core/safemath.SafeMulInt64": "multiplication by a sign in {1,-1} after the 128-bit product was range-checked (hi == 0); the following sign-bit test rejects the one wrapping case",
+// isUnitSign: every definition of the variable in body is the constant 1 or -1 (a sign factor).
+// A product with such a factor can only wrap for min * -1, which flips nothing but the sign bit;
+// it is validated by a test of the result's sign instead of the inverse operation.
+func isUnitSign(info *types.Info, body *ast.BlockStmt, e ast.Expr) bool {
+	v := objOfIdent(info, e)
+	if v == nil {
+		return false
+	}
+	n, ok := 0, true
+	unit := func(x ast.Expr) bool {
+		tv, has := info.Types[ast.Unparen(x)]
+		return has && tv.Value != nil && (tv.Value.String() == "1" || tv.Value.String() == "-1")
+	}
+	ast.Inspect(body, func(c ast.Node) bool {
+		switch x := c.(type) {
+		case *ast.AssignStmt:
+			for i, l := range x.Lhs {
+				if objOfIdent(info, l) == v {
+					n++
+					if len(x.Lhs) != len(x.Rhs) || !unit(x.Rhs[i]) {
+						ok = false
+					}
+				}
+			}
+		case *ast.ValueSpec:
+			for i, nm := range x.Names {
+				if info.Defs[nm] == v {
+					n++
+					if i >= len(x.Values) || !unit(x.Values[i]) {
+						ok = false
+					}
+				}
+			}
+		case *ast.IncDecStmt:
+			if objOfIdent(info, x.X) == v {
+				ok = false
+			}
+		case *ast.UnaryExpr:
+			if x.Op == token.AND && objOfIdent(info, x.X) == v {
+				ok = false
+			}
+		}
+		return true
+	})
+	return ok && n > 0
 }
 
 // checkRoundTripValidated: second clause of C19 that is visible in code shape. A raw `*` or `<<`
@@ -205,10 +405,7 @@ func checkRoundTripValidated(r *Reporter, p *Prog, pkg string, info *types.Info)
 					}
 					n++
 					key := strings.TrimSuffix(strings.TrimPrefix(exprKey(be), "("), ")") + " in " + fkey
-					if reason, ok := roundTripExempt[key]; ok {
-						r.Pass("wrap/round-trip-validated", key, p.posStr(be.Pos()), "tabled exemption: "+reason)
-						return true
-					}
+					signFactor := be.Op == token.MUL && (isUnitSign(info, fd.Body, be.X) || isUnitSign(info, fd.Body, be.Y))
 					as, isAssign := nd.(*ast.AssignStmt)
 					if !isAssign || len(as.Lhs) != 1 || len(as.Rhs) != 1 || ast.Unparen(as.Rhs[0]) != ast.Expr(be) {
 						r.Fail("wrap/round-trip-validated", key, p.posStr(be.Pos()), "a raw product/shift of non-constant integers is used without being bound to a variable that is validated by the inverse operation: it wraps silently for large operands")
@@ -232,6 +429,17 @@ func checkRoundTripValidated(r *Reporter, p *Prog, pkg string, info *types.Info)
 						}
 						return false
 					})
+					if signFactor {
+						// validated by a branch over the result (its sign): an edge whose condition,
+						// with temporaries resolved, mentions the result
+						valid = nil
+						f.forEachEdgeFact(func(e Edge, eb *cfg.Block, ft fact) {
+							k := f.KeyAt(ft.Atom, Point{eb, len(eb.Nodes) - 1})
+							if strings.Contains(k, res) || strings.Contains(k, exprKey(be)) || strings.Contains(k, f.KeyAt(be, pt)) {
+								valid = append(valid, e)
+							}
+						})
+					}
 					isValid := func(e Edge) bool {
 						for _, v := range valid {
 							if v == e {
@@ -252,7 +460,12 @@ func checkRoundTripValidated(r *Reporter, p *Prog, pkg string, info *types.Info)
 						if be.Op == token.SHL {
 							inv = ">>"
 						}
+						if signFactor {
+							inv = "sign test of the result"
+						}
 						r.Fail("wrap/round-trip-validated", key, p.posStr(be.Pos()), fmt.Sprintf("a nil-error return is reachable from %s := %s without passing the edge on which the inverse operation (%s) restored the operand: a wrapped value is returned as exact", res, exprKey(be), inv), w...)
+					} else if signFactor {
+						r.Pass("wrap/round-trip-validated", key, p.posStr(be.Pos()), "product with a sign factor in {1,-1}: every nil-error return after it passes a branch over the result's sign")
 					} else {
 						r.Pass("wrap/round-trip-validated", key, p.posStr(be.Pos()), "every nil-error return after it passes the round-trip equality edge")
 					}
